@@ -35,6 +35,18 @@ CLAIMED = {
     'C17': dict(design='§6 C17', technique='Lean 4 proof (princeLoop size = take N; C01/C02 on the Prince grid) + subprocess diff for every N inside tie groups',
                 text='--size theorem for all N and pop sequences; order/each-once from the PQ theorems; stdout vs -o file vs in-process stream.',
                 note='same trusted base as C01/C04/C09'),
+    'C06': dict(design='§6 C06', technique='Lean 4 proof (calcProbs: permutation, count/total, stable sort, sum = 1 over Rat, Markov share) + bit-exact correspondence + file-by-file recomputation',
+                text='Theorems for every counter; real calculate_probabilities compared bit for bit; every list file of real trainings equals the independently recomputed relative-frequency list of the real parser counters; determinism across hash seeds.',
+                note='float sums differ from 1 by rounding only; which items reach which counter is C05'),
+    'C11': dict(design='§6 C11', technique='Lean 4 model of trainer/scorer/guesser level functions + correspondence of the three real implementations (theorems being added)',
+                text='find_omen_level, OmenScorer.parse and the real MarkovCracker agree with each other and with the model on training, perturbed and boundary strings; guesser side proved exact in C10.',
+                note='smoothing (log/floor) modelled not verified: levels are inputs'),
+    'C18': dict(design='§6 C18', technique='Lean 4 model of calc_omen_keyspace (recursive + tabulated) + count comparison with the real generator (theorems being added)',
+                text='Saved keyspace = number of guesses per level for the real generator and the model; saved probability = (count/N)/keyspace.',
+                note='levels too large to enumerate are covered by the model only'),
+    'C19': dict(design='§6 C19', technique='Lean 4 proof (readLine: hex = plain, count = repeats, skips, no leak, fold) + reader correspondence + trained-ruleset comparison',
+                text='Theorems for all lines / passwords / counts with int(), hex-decode and encode as parameters; real read_password sequences compared with the model; rulesets trained from the three encodings compared file by file.',
+                note='codec internals and int() are runtime parameters'),
     'C20': dict(design='§6 C20', technique='Lean 4 proof (three filters = List.filter on rows, tokens = labels) + exact text diff of edit_rules + directory hashes',
                 text='Filter theorems for all well-formed grammar files and options; real edit_rules output compared byte for byte; other files hashed.',
                 note='user regex abstract; X label length is a recorded known finding'),
